@@ -628,7 +628,21 @@ def do_locations(req):
     return {'status': 'ok', 'locs': sorted(seen)}
 
 
-HANDLERS = {'strloc': do_strloc, 'locations': do_locations, 'headtheory': do_headtheory, 'intervalset': do_intervalset, 'theory': do_theory, 'history': do_history, 'solve': do_solve, 'transform': do_transform, 'loop': do_loop, 'pyparse': do_pyparse, 'gparse': do_gparse}
+def do_parsehead(req):
+    """the first statement the parser of clingo delivers for each text (contract of Model/Inputs.v: `#program base.`)"""
+    from clingo import ast as _a
+    out = []
+    for t in req['texts']:
+        sts = []
+        try:
+            _a.parse_string(t, lambda s: sts.append(str(s)))
+        except Exception as e:  # noqa
+            return exc_info(e)
+        out.append(sts[0] if sts else None)
+    return {'status': 'ok', 'first': out}
+
+
+HANDLERS = {'parsehead': do_parsehead, 'strloc': do_strloc, 'locations': do_locations, 'headtheory': do_headtheory, 'intervalset': do_intervalset, 'theory': do_theory, 'history': do_history, 'solve': do_solve, 'transform': do_transform, 'loop': do_loop, 'pyparse': do_pyparse, 'gparse': do_gparse}
 
 
 def main():
